@@ -441,9 +441,11 @@ Theorem ifold_sound_refuted :
 Proof.
   split; (split; [vm_compute; reflexivity|]); intro S.
   - destruct w_beyond_2_53_folds as [F E].
-    specialize (S (fun _ => None) _ ltac:(intros n v H; discriminate) F). rewrite E in S. cbn [ieval] in S. discriminate.
+    specialize (S (fun _ => None) _ ltac:(intros n v H; discriminate) F). rewrite E in S.
+    apply (f_equal (fun o => match o with Some z => z =? 9007199254740992 | None => false end)) in S. vm_compute in S. discriminate S.
   - destruct w_i64_overflow_folds as [F E].
-    specialize (S (fun _ => None) _ ltac:(intros n v H; discriminate) F). rewrite E in S. cbn [ieval] in S. discriminate.
+    specialize (S (fun _ => None) _ ltac:(intros n v H; discriminate) F). rewrite E in S.
+    apply (f_equal (fun o => match o with Some z => z =? 9223372036854775807 | None => false end)) in S. vm_compute in S. discriminate S.
 Qed.
 
 (* ------------------------------------------------------------ boolean folding *)
@@ -543,7 +545,7 @@ Proof.
     rewrite (IH a Hin (HB a Hin) rho beta b Hrho Hab). reflexivity.
 Qed.
 
-Lemma ball_of_bool : forall via (P : iexp -> bool) (Q : iexp -> Prop) (pb : bexp -> bool),
+Lemma ball_of_bool : forall (P : iexp -> bool) (Q : iexp -> Prop),
   (forall ie, P ie = true -> Q ie) ->
   forall e,
   (fix chk (e : bexp) : bool :=
@@ -555,7 +557,7 @@ Lemma ball_of_bool : forall via (P : iexp -> bool) (Q : iexp -> Prop) (pb : bexp
      | BAnd es | BOr es => forallb chk es
      end) e = true -> ball Q e.
 Proof.
-  intros via P Q pb HPQ e. induction e as [b|n|ie|c a b|e IH|es IH|es IH] using bexp_ind2; intro H; cbn [ball]; auto.
+  intros P Q HPQ e. induction e as [b|n|ie|c a b|e IH|es IH|es IH] using bexp_ind2; intro H; cbn [ball]; auto.
   - apply andb_true_iff in H. destruct H; split; auto.
   - induction es as [|x t IHt]; [exact I|]. cbn [forallb] in H. apply andb_true_iff in H. destruct H as [Hx Ht].
     inversion IH; subst. split; [apply H1; exact Hx|apply IHt; assumption].
@@ -567,7 +569,7 @@ Qed.
 Theorem bfold_sound_small : forall via e, bwf e = true -> bsmall via e = true -> bsound via e.
 Proof.
   intros via e W S. apply bfold_sound_gen.
-  apply (ball_of_bool via (fun ie => iwf ie && ismall via ie) _ (fun _ => true)).
+  apply (ball_of_bool (fun ie => iwf ie && ismall via ie)).
   - intros ie H. apply andb_true_iff in H. destruct H as [H1 H2]. split; [exact H1|apply ifold_sound_small; assumption].
   - revert W S. induction e as [b|n|ie|c a b|e IH|es IH|es IH] using bexp_ind2; intros W S; cbn [bwf bsmall] in *; auto.
     + rewrite W, S. reflexivity.
@@ -583,15 +585,9 @@ Qed.
 Theorem bfold_sound_checked : forall e, bwf e = true -> bsound false e.
 Proof.
   intros e W. apply bfold_sound_gen.
-  apply (ball_of_bool false iwf _ (fun _ => true)).
+  apply (ball_of_bool iwf).
   - intros ie H. split; [exact H|apply ifold_sound_checked; exact H].
-  - revert W. induction e as [b|n|ie|c a b|e IH|es IH|es IH] using bexp_ind2; intros W; cbn [bwf] in *; auto.
-    + induction es as [|x t IHt]; [reflexivity|]. cbn [forallb] in *.
-      apply andb_true_iff in W. destruct W. inversion IH; subst.
-      apply andb_true_iff. split; [apply H3; assumption|apply IHt; assumption].
-    + induction es as [|x t IHt]; [reflexivity|]. cbn [forallb] in *.
-      apply andb_true_iff in W. destruct W. inversion IH; subst.
-      apply andb_true_iff. split; [apply H3; assumption|apply IHt; assumption].
+  - exact W.
 Qed.
 
 (* verdict-level refutation: the rule `9007199254740993 + 1 == 9007199254740994`
